@@ -34,15 +34,25 @@ terms and record term types, and the `Record` arm of `Term::from_value` for a fl
     `NoSuchAttribute`) or accepts and folds because a constant guard / short-circuit drops the ill-typed part
     (`false && (1 + true)` ↦ `some false`, `1 == "a"` ↦ `some false`, `if 1 < 2 then 1 else true` ↦ `some 1`,
     `context has zz` ↦ `some false`); an entity literal outside the schema's types / enum members is rejected although
-    evaluate succeeds.  These are `example`s; NO theorem characterises when the compiler rejects (`compile_rejects_iff`
-    is not stated), and "a fragment expression never yields the model-only error `.outside`" is false for `SFrag2`
-    (`principal.a` is in `SFrag2` syntactically and gives `.outside`: attribute access on entity-typed terms is not modelled;
-    the theorem's hypothesis `hc` excludes it, the driver prints `(outside-model)`).
+    evaluate succeeds.
+  * `compile_rejects_iff` / `compile_typeOf_ctype` (THIRD ROUND; `ctype`, `ctype_spec` in Lemmas/SymCType.lean): WHEN the
+    compiler rejects is now characterised exactly.  `ctype` is the compiler's OWN typing discipline (the checks of
+    compile_app1/app2/reducible_eq/if/and/or/attrs_of/has_attr/get_attr on term types — not the validator's); on the literal
+    environment (same hypothesis `hctx` about the context term) and for every `e ∈ SFrag2`: `compile` returns error `err`
+    (`TypeError` / `NoSuchAttribute` / the model-only `.outside`) iff `ctype e = .error err`, accepts iff `ctype e = .ok ty`,
+    and then the term has type `ty`.  The discipline is NOT purely type-directed: `if / && / ||` skip the checks on the
+    operand a constant guard discards, and the guard is constant exactly when `evaluate` gives a boolean — `ctype` reads
+    that one bit (`guardConst (evaluate …)`) and nothing else from the concrete semantics.  The examples
+    (`false && (1 + true)` accepted, `(MAX+1) + true` rejected) are re-derived from it.  "A fragment expression never
+    yields `.outside`" remains false for `SFrag2` (`principal.a` gives `.outside`: attribute access on entity-typed terms is
+    not modelled; `ctype` says exactly when: `.`/`has` applied to an entity-typed operand in a checked position).
   * `compilePolicy_discharged`, `vc_skeleton_correct_fragment`: for policies whose conditions are in `SFrag2`, the
     compile contract (`compilePolicy`) is what the modelled compiler produces, so `vc_skeleton_correct` holds with the
     enforcer assumption `hEnf` and the context representation `hctx` as the only hypotheses.
-  * NOT PROVED: that `ctxTermOf` (the symbolizer's record arm) satisfies `CtxOK` for every conformant flat context
-    (shown on an example; the driver computes the context term with `ctxTermOf`, so the differential run checks it).
+  * `ctxTermOf_ctxOK`, `compile_correct_fragment2_conformant` (THIRD ROUND): `ctxTermOf` (the symbolizer's record arm)
+    never fails on and satisfies `CtxOK` for EVERY flat context whose attributes are all declared by the flat context type
+    and carry primitive values (`FlatConforms`, implied by schema conformance), so `hctx` is discharged for conformant
+    requests.
 
 STILL NOT PROVED, NOT MODELLED: the compiler outside `SFrag2` (attributes / `has` on entities, `in`, tags, sets, record
 literals, nested-record / set-typed context attributes, `like`, `is`, extension functions), symccopt/compiler.rs'
